@@ -1438,6 +1438,105 @@ class EArray(Engine):
         self._verified = None
         return self._obs(st, r)
 
+    def ev_scaled(self, ev):
+        """The same data under a Dtype object that carries a scale (twin S) and under the plain dtype (twin U): S decodes to
+        U's items times the scale, index for index; pop takes the same bits out of both; a pop that cannot decode its item
+        has not removed it; and what an operator gives for scaled operands does not depend on which scaled operands an earlier
+        call had.  Self-contained: the run's own Array is not touched."""
+        B = self.B
+        what = ev.get('what')
+        self._op, self._trig = f'scaled:{what}', self.tb()
+        if self.dt.cls == 'other' or self.dt.key[0] in '<>=@':
+            return {'skip': 'not a numeric dtype'}
+        k = ev.get('scale') if ev.get('scale') in (2, 4, 0.5, -1, 1000) else 2
+        if what == 'pop_undecodable':
+            if self.dt.cls != 'float':
+                return {'skip': 'undecodable items need a float dtype'}
+            k = 10 ** 400
+        st, ds = call(B.Dtype, self.dt.key, scale=k)
+        if st != 'ok':
+            return {'skip': 'no scaled Dtype for this key'}
+        bits = self.bits()
+        U = self.mk_array(self.dt.key, bits)
+        st, S = call(B.Array, ds)
+        if st != 'ok':
+            self.fail('scaled-array-refused', exc=kernel.canon(S))
+            return self._obs(st, S)
+        S.data = B.BitArray(U.data)
+        self.probe('scaled:twin-built')
+
+        def same(a, b):
+            return a == b or (a != a and b != b)
+
+        def times(u):
+            try:
+                return u * k
+            except OverflowError:
+                return None
+        n = len(self.items)
+        if what == 'read':
+            st_s, ls = call(S.tolist)
+            st_u, lu = call(U.tolist)
+            if st_u != 'ok':
+                return {'skip': 'plain twin unreadable'}
+            if st_s != 'ok':
+                self.fail('raised', exc=kernel.canon(ls))
+            elif len(ls) != len(lu) or not all(same(a, times(b)) for a, b in zip(ls, lu)):
+                self.fail('items-are-not-the-plain-items-times-the-scale', got=kernel.canon(ls[:6]), plain=kernel.canon(lu[:6]), scale=k)
+            if n:
+                i = int(ev.get('i', 0)) % n
+                st_s, a = call(S.__getitem__, i)
+                if st_s != 'ok' or not same(a, times(lu[i])):
+                    self.fail('item-is-not-the-plain-item-times-the-scale', i=i, got=kernel.canon(a), plain=kernel.canon(lu[i]), scale=k)
+            return {'st': 'ok'}
+        if what in ('pop', 'pop_undecodable'):
+            i = int(ev.get('i', 0))
+            before = kernel.safe_bin(S.data)
+            st_u, ru = call(U.pop, i) if n else call(U.pop)
+            st_s, rs = call(S.pop, i) if n else call(S.pop)
+            after = kernel.safe_bin(S.data)
+            if st_s == 'exc':
+                if after != before:
+                    self.fail('refused-pop-changed-the-array', exc=kernel.canon(rs), before=before[:200], after=after[:200])
+                if st_u == 'ok' and what == 'pop':
+                    self.fail('raised', exc=kernel.canon(rs))
+                if what == 'pop_undecodable':
+                    self.probe('scaled:pop-of-undecodable-item-refused')
+            elif st_u == 'ok':
+                if after != kernel.safe_bin(U.data) or not same(rs, times(ru)):
+                    self.fail('pop-differs-from-plain-twin', got=kernel.canon(rs), plain=kernel.canon(ru), scale=k)
+            elif what == 'pop':
+                self.fail('accepted-where-plain-twin-refuses', plain_exc=kernel.canon(ru))
+            return {'st': st_s}
+        # op_history: T (another scale) op U, once after S op U has run and once with every cache of the package emptied
+        k2 = ev.get('scale2') if ev.get('scale2') in (8, 0.25, 3) else 8
+        st, dt2 = call(B.Dtype, self.dt.key, scale=k2)
+        if st != 'ok' or not n:
+            return {'skip': 'nothing to operate on'}
+        T = B.Array(dt2)
+        T.data = B.BitArray(U.data)
+        pyop = {'add': operator.add, 'sub': operator.sub, 'mul': operator.mul}.get(ev.get('op'), operator.add)
+        # (the other operand: the plain twin, and a narrow unsigned Array that loses the promotion against every numeric dtype)
+        V = B.Array('uint1', [1] * n)
+        for o in (U, V):
+            call(pyop, S, o)
+            call(pyop, o, S)
+        first = [call(pyop, T, U), call(pyop, U, T), call(pyop, T, V), call(pyop, V, T)]
+        self.R.clear_caches()
+        again = [call(pyop, T, U), call(pyop, U, T), call(pyop, T, V), call(pyop, V, T)]
+
+        def canon_r(r):
+            st_, v = r
+            if st_ != 'ok':
+                return ('exc', exc_name(v))
+            if kernel.is_array(v):
+                return ('ok', str(v.dtype), repr(getattr(v.dtype, 'scale', None)), kernel.safe_bin(v.data))
+            return ('ok', kernel.canon(v))
+        if [canon_r(r) for r in first] != [canon_r(r) for r in again]:
+            self.fail('result-depends-on-an-earlier-call-with-another-scale', first=[canon_r(r)[:3] for r in first], fresh=[canon_r(r)[:3] for r in again])
+        self.probe('scaled:operator-history')
+        return {'st': 'ok'}
+
     def ev_cache_clear(self, ev):
         self._op = 'cache_clear'
         self.R.clear_caches()
@@ -1755,7 +1854,7 @@ class EArray(Engine):
               ('count', 3), ('contains', 1), ('tolist', 1), ('iter', 1.5), ('iter_start', 1), ('iter_next', 2.5),
               ('equals', 3), ('copy', 2), ('set_dtype', 3), ('set_data', 2), ('props', 1), ('op', 8), ('iop', 6),
               ('iop_unfit', 2.5), ('rop', 3), ('unary', 2), ('tobytes', 1), ('tofile', 1.5), ('fromfile', 2.5),
-              ('astype', 2), ('byteswap', 1), ('cache_clear', 2), ('ctor', 3), ('option', 1), ('poke_src', 1))
+              ('astype', 2), ('byteswap', 1), ('cache_clear', 2), ('ctor', 3), ('option', 1), ('poke_src', 1), ('scaled', 1.5))
     FOCUS = {'list': ('get', 'set', 'del', 'append', 'extend', 'insert', 'pop', 'reverse', 'count', 'iter_next'),
              'slices': ('getslice', 'setslice', 'setslice_f', 'delslice'),
              'ops': ('op', 'iop', 'iop_unfit', 'rop', 'unary'),
@@ -2010,6 +2109,12 @@ class EArray(Engine):
         if g.chance(0.4):
             return {'k': 'option', 'name': 'lsb0', 'value': not self.lsb0 if g.chance(0.85) else self.lsb0}
         return {'k': 'option', 'value': g.chance(0.6)}
+
+    def g_scaled(self, g):
+        if self.dt.cls == 'other' or self.dt.key[0] in '<>=@':
+            return None
+        return {'k': 'scaled', 'what': g.pick(['read', 'read', 'pop', 'pop_undecodable', 'op_history']), 'scale': g.pick([2, 4, 0.5, -1, 1000]),
+                'scale2': g.pick([8, 0.25, 3]), 'i': g.int(-2, 6), 'op': g.pick(['add', 'sub', 'mul'])}
 
     def g_poke_src(self, g):
         if self._src is None:
